@@ -10,7 +10,7 @@ from .. import alg
 from ..alg import E, lift, ZERO, ONE
 from ..interp import Interp, RaiseSig
 from ..values import symarr, Record, ClassVal, IntSym, Unsupported
-from .common import public, defloc, short, ident_arr, sym_matrix, enum
+from .common import public, defloc, short, ident_arr, sym_matrix, enum, explore_exits
 from .c11 import voigt_index
 from . import driver
 
@@ -68,7 +68,10 @@ def run(ctx):
     ctx.rule("C10.average", "voigt_averages(...)[i] == reference volume-weighted sum of rotated stiffnesses (all 36 cells, per snapshot)")
     ctx.rule("C10.symmetric", "the averaged 6x6 matrix is symmetric")
     ctx.rule("C10.order", "result unchanged by reordering the mineral list and by simultaneously permuting assemblage and fractions")
-    ctx.rule("C10.aligned", "one aligned grain (A = I, f = 1, phi = 1) returns the single-crystal matrix")
+    ctx.rule("C10.aligned", "one aligned grain (A = I, f = 1, phi = 1) returns the single-crystal matrix; several aligned grains with general volumes f_g and phase "
+             "fraction phi return phi * (sum_g f_g) * C; an aligned grain next to a generic one contributes phi * f * C")
+    ctx.rule("C10.exit-paths", "the reference average also holds on every data-dependent early-exit path of voigt_averages and its helpers (each exit forced in "
+             "turn, the reference restricted to the region the exit condition describes)")
     ctx.rule("C10.reject", "unequal grain counts / snapshot counts raise ValueError")
     ctx.rule("C10.history", "the result is a function of the arguments of the call: a later call in the same process with the same objects holding new "
              "contents (stiffness record mutated in place, minerals with new snapshots), or with new objects, still equals the reference")
@@ -162,6 +165,44 @@ def run(ctx):
             ident_arr(ctx, "C10.aligned", ph, out[0], C[ph], loc)
         except RaiseSig as r:
             ctx.ob("C10.aligned", ph, False, f"raises {r.exc.typename}", loc)
+    # several aligned grains with general volumes; an aligned grain next to a generic one
+    for ph in ("olivine", "enstatite"):
+        for variant in ("all aligned", "first aligned", "last aligned"):
+            m = driver.make_mineral(I, ph, fab[ph], "matrix_dislocation", 3, label="am", nsnap=1, symbolic_n=False)
+            aligned = {"all aligned": (0, 1, 2), "first aligned": (0,), "last aligned": (2,)}[variant]
+            for g in aligned:
+                m.attrs["orientations"][0][g] = I.np.np_eye(3)
+            try:
+                out = I.call(f, ([m], [enum(I, "pydrex.core.MineralPhase", ph)], [p], st))
+                ident_arr(ctx, "C10.aligned", f"{ph}:{variant}, general volumes", out, ref_average([m], (ph,), (p,), C, 1, 3), loc, what="averaged stiffness")
+            except RaiseSig as r:
+                ctx.ob("C10.aligned", f"{ph}:{variant}, general volumes", False, f"raises {r.exc.typename}", loc)
+            except (Unsupported, alg.AlgError) as ex:
+                ctx.ob("C10.aligned", f"{ph}:{variant}, general volumes", "inconclusive", f"outside the interpreted subset: {str(ex)[:120]}", loc)
+    ctx.floor("C10.aligned", 8)
+    # early-exit paths of the average and its helpers
+    def build(I_):
+        ms_ = [driver.make_mineral(I_, ph, fab[ph], "matrix_dislocation", 2, label="x" + ph[:2], nsnap=1, symbolic_n=False) for ph in ("olivine", "enstatite")]
+        st_ = Record(public(ctx, I_, "pydrex.minerals.StiffnessTensors"), {"olivine": C["olivine"], "enstatite": C["enstatite"]})
+        for m in ms_:
+            for fsnap in m.attrs["fractions"]:
+                I_.facts_nonzero.extend(lift(x) for x in fsnap)
+        return ms_, [enum(I_, "pydrex.core.MineralPhase", a) for a in ("olivine", "enstatite")], st_
+    Ig = Interp(ctx.program)
+    ms_g, phs_g, st_g = build(Ig)
+    try:
+        Ig.call(public(ctx, Ig, dotted), (ms_g, phs_g, [p, q], st_g))
+        ref_g = ref_average(ms_g, ("olivine", "enstatite"), (p, q), C, 1, 2)
+
+        def again(I_):
+            ms_, phs_, st_ = build(I_)
+            return I_.call(public(ctx, I_, dotted), (ms_, phs_, [p, q], st_))
+        nj = explore_exits(ctx, "C10.exit-paths", "voigt_averages(ol+en, 2 grains)", Ig, 0, lambda: Interp(ctx.program), again, ref_g, loc, what="averaged stiffness")
+        ctx.count("early-exit paths judged", nj)
+    except RaiseSig as r:
+        ctx.ob("C10.exit-paths", "generic call", False, f"raises {r.exc.typename}", loc)
+    except (Unsupported, alg.AlgError) as ex:
+        ctx.ob("C10.exit-paths", "generic call", "inconclusive", f"outside the interpreted subset: {str(ex)[:120]}", loc)
     # rejection
     def bad(kind):
         m1 = driver.make_mineral(I, "olivine", "olivine_A", "matrix_dislocation", 2, label="b1", nsnap=2, symbolic_n=False)
